@@ -628,7 +628,7 @@ pub fn run(c: &Ctx) {
     // --- strings (exhaustive) -------------------------------------------------------------------
     let alpha = ["a", "F", "f", "0", "é", "ß", "İ", " "];
     let mut strings = all_strings(&alpha, c.tier.pick(3, 4));
-    for w in ["false", "true", "0", "00", "no", "False", "FALSE", "fAlSe", "falsE", "TRUE", "false ", " false", "fals", "falsé", "ﬀalse", "FALSE0", "0false"] {
+    for w in ["false", "true", "0", "00", "no", "False", "FALSE", "fAlSe", "falsE", "TRUE", "false ", " false", "fals", "falsé", "ﬀalse", "FALSE0", "0false", "\n", "0\n", "false\n", "FALSE\r\n", "\r", "0\r\n", "\nfalse", "false\t", "\u{feff}false", "0\u{0}"] {
         strings.push(w.to_string());
     }
     par_for(strings.len() as u64, 64, |i| {
